@@ -150,6 +150,31 @@ def skolemize(enc, gates, known_atoms, ranges):
         quad = [(sym(k, P), a, b) for k, a, b in quad]
         parsed.append((g, sym(const, P), lin, quad))
     pending = list(parsed)
+    # Running-sum chains (`x = d0 + .. + acc1`, `acc1 = 2^32 d4 + ..`): an accumulator cell without a range that
+    # occurs linearly in exactly two rows is eliminated from one of them (the combined row is a consequence of
+    # the two; it is used only to FIND definitions, the constraints checked afterwards are the original rows),
+    # so that the digits of the whole chain are seen in one radix row; the accumulator is then defined by the
+    # row that still contains it.
+    for _round in range(64):
+        occ = {}
+        for idx, (g, c, lin, quad) in enumerate(pending):
+            for a in lin:
+                occ.setdefault(a, []).append(idx)
+        inquad = {x for (_, _, _, quad) in pending for (_, a, b) in quad for x in (a, b)}
+        cand = [a for a, rows in occ.items() if len(rows) == 2 and a not in K and a not in ranges and a not in inquad]
+        if not cand:
+            break
+        u = sorted(cand)[0]
+        ia, ib = occ[u]
+        ga, ca, la, qa = pending[ia]
+        gb, cb, lb, qb = pending[ib]
+        f = (lb[u] * pow(la[u], -1, P)) % P
+        nl = dict(lb)
+        for a, cc in la.items():
+            nl[a] = sym((nl.get(a, 0) - f * cc) % P, P)
+        nl = {a: cc for a, cc in nl.items() if cc % P}
+        nq = list(qb) + [(sym((-f * k) % P, P), a, b) for k, a, b in qa]
+        pending[ib] = (gb, sym((cb - f * ca) % P, P), nl, nq)
     free_bits = []
     inv_cache = {}
 
@@ -273,29 +298,49 @@ def skolemize(enc, gates, known_atoms, ranges):
                     K.add(u)
                     progress = True
                     continue
-            # radix row: all unknowns are range-checked digits, occurring linearly
-            if all(u in ranges for u in U) and not any((a in U or b in U) for _, a, b in quad):
+            # radix row: all unknowns are range-checked digits, occurring linearly; at most ONE unknown without a
+            # range may sit on top (running-sum rows `known = d + B*z`: z := known div B)
+            unranged = [u for u in U if u not in ranges]
+            if len(unranged) <= 1 and len(U) >= 2 - (0 if unranged else 1) and not any((a in U or b in U) for _, a, b in quad) \
+                    and all(u in lin for u in U):
                 digs = sorted(((abs(lin[u]), u) for u in U))
                 sg = {1 if lin[u] > 0 else -1 for u in U}
                 if len(sg) != 1:
                     continue
                 sgn = sg.pop()
+                if unranged and digs[-1][1] != unranged[0]:
+                    continue
                 w0 = digs[0][0]
                 ok, acc = True, w0
                 for wgt, u in digs:
                     if wgt != acc:
                         ok = False
                         break
-                    acc = wgt * ranges[u]
+                    acc = wgt * ranges[u] if u in ranges else None
                 if not ok:
                     continue
                 # sgn * sum w_i d_i + known = 0   =>   sum w_i d_i = -sgn*known =: V   (V read as an integer in [0,p))
                 kn_terms = [(-sgn * cc, a) for a, cc in lin.items() if a not in U] + [(-sgn * k, enc.fmul(a, b)) for k, a, b in quad]
                 V = enc.define_mod(kn_terms, -sgn * c)
                 Vs = V if not isinstance(V, int) else I(V)
+                # Euclidean (mixed-radix) decomposition of V as a TOTAL relation with fresh integers instead of
+                # nested div/mod terms (linear arithmetic; 64-bit shapes: 77 s -> seconds):
+                #   V = r0 + sum w_i d_i + W_top * q,  0 <= r0 < w0,  0 <= d_i < B_i,  q >= 0
+                # has a solution for every V >= 0, so asserting it keeps `exists w` intact; an unranged top cell
+                # is q; with all cells ranged the row itself then demands q = 0 and r0 = 0 (to be proved from Spec).
+                r0 = enc.fresh("rr", 0, w0 - 1) if w0 > 1 else 0
+                qt = enc.fresh("rq", 0, P)
+                terms, Wtop = [], None
                 for wgt, u in digs:
-                    enc.defs.append(f"(assert (= {u} (mod (div {Vs} {wgt}) {ranges[u]})))")
+                    if u in ranges:
+                        enc.defs.append(f"(assert (and (<= 0 {u}) (< {u} {ranges[u]})))")
+                        terms.append(f"(* {wgt} {u})")
+                        Wtop = wgt * ranges[u]
+                    else:
+                        enc.defs.append(f"(assert (= {u} {qt}))")
+                        Wtop = wgt
                     K.add(u)
+                enc.defs.append(f"(assert (= {Vs} (+ {r0} {' '.join(terms) if terms else 0} (* {Wtop} {qt}))))")
                 progress = True
                 continue
         if not progress:
